@@ -1,5 +1,6 @@
 SPECIFICATION Spec2
 CONSTANT Instances <- NucInstances
+CONSTANT Refused <- NoRefused
 INVARIANT UnknownIsNeutral
 INVARIANT AllUnknownIsOne
 INVARIANT Monotone
